@@ -11,14 +11,15 @@ MODULE = "Registration"
 def inst_for(c, seed):
     h = int(hashlib.sha1(("%s|%d" % (sorted(c.items()), seed)).encode()).hexdigest(), 16)
     return {"rate": [1024.0 * 64, 3e9, 187.5e6][h % 3], "fch1": [0.0, 6e9, 1.4204e9][(h // 3) % 3],
-            "pols": 1 + (h // 9) % 2, "directio": bool((h // 18) % 2), "seed": 3 + h % 1000}
+            "pols": 1 + (h // 9) % 2, "directio": bool((h // 18) % 2), "seed": 3 + h % 1000,
+            "align": (h // 36) % 2 == 0, "via_data": (h // 72) % 3 == 0}
 
 
 def run(ctx):
     ctx.notes["rule"] = ("configurations (branches 8/16, fine FFT length 8/16, orientation, first recorded channel, channel count, "
                          "tone on every half fine bin of the recorded band except the DC channel / channel centres / edges, "
                          "spectra count, integration factor) from Registration.tla; each is a real recording (sample rate, "
-                         "fch1, pols, DIRECTIO drawn per configuration); distinct = distinct configurations")
+                         "fch1, pols, DIRECTIO, header length aligned to 512 bytes or not, re-recording through from_data drawn per configuration; chirps also over two consecutive recordings; distinct = distinct configurations")
     ctx.assume("peak finding by a harness-owned shifted FFT (numeric projection outside TLC); tone 26 dB above noise; "
                "fch1 round trip compared at 1e-9*|fch1| + 1e-6*|chan_bw| (decimal OBSFREQ card)")
     res = tlc.run(MODULE, "Registration_MC.cfg", ctx.outdir, workers=8, coverage=True)
@@ -57,9 +58,19 @@ def run(ctx):
                     if abs(end) < c["L"] - 2 and abs(off) < c["L"] - 2:
                         ad.check_chirp(c, inst, work, dps * (1 if c["asc"] else -1) * 1.0)
                         ctx.steps += 8
+                    # two consecutive recordings of 5 segments each by one backend: the chirp continues
+                    end2 = off + 2 * dps * 11.5
+                    if abs(end2) < c["L"] - 2 and abs(off) < c["L"] - 2:
+                        ad.check_chirp(c, inst, work, dps * (1 if c["asc"] else -1) * 1.0, nseg=5, second=True)
+                        ctx.steps += 10
         except ad.Div as d:
             args = dict(c)
             args.update(inst)
             args.update({"action": d.field})
             ctx.violation(MODULE, "replay:" + d.field, args, {"spec": out, "instantiation": inst, "expected": d.expected,
                                                             "observed": d.observed})
+    ctx.notes["legs"] = dict(ad.COUNTS)
+    if not ctx.quick() or ctx.traces >= 100:
+        for k, v in ad.COUNTS.items():
+            if v == 0:
+                raise RuntimeError("vacuity: leg %s never exercised" % k)
